@@ -577,6 +577,36 @@ func genFuzz(rng *h.Rng, emit func(string), thorough bool) {
 		emit(fmt.Sprintf("fzshares %d %d %s %s %s", t, n, seed, h.Hex(content), strings.Join(ss, ";")))
 	}
 	genParse(rng, emit, k(250, 6000))
+	// an adversarial message injected at every point of an otherwise honest 3-member session
+	{
+		n := 3
+		var sched []string
+		for i := 0; i < n; i++ {
+			sched = append(sched, fmt.Sprintf("s%d", i))
+		}
+		for _, kind := range []string{"p", "d", "r"} {
+			for j := 0; j < n; j++ {
+				for i := 0; i < n; i++ {
+					if i != j {
+						sched = append(sched, fmt.Sprintf("%s%d.%d", kind, j, i))
+					}
+				}
+			}
+		}
+		advs := []string{"D.1.1.0.nil", "D.1.1.0.junk", "D.1.1.0.nilshare", "D.1.1.0.nilv", "D.7.1.0.good", "D.1.1.2.good", "RN.1", "RN.0", "RN.9",
+			"R.1.2.cur1.a.junk", "R.1.9.cur1.c.none", "R.0.1.cur0.c.1", "R.1.2.raw.a.2", "D.0.1.0.nil"}
+		total := len(advs) * (len(sched) + 1)
+		want := k(16, total)
+		for a, adv := range advs {
+			for pos := 0; pos <= len(sched); pos++ {
+				if want < total && rng.Intn(total) >= want {
+					continue
+				}
+				ev := append(append(append([]string{}, sched[:pos]...), "x1.0"), sched[pos:]...)
+				emit(fmt.Sprintf("fzsim %d %d X1=%s %s", 1000+a, n, adv, strings.Join(ev, ",")))
+			}
+		}
+	}
 	// oversized documents
 	emit("fzfetch 1")
 	emit("fzfetch 48")
